@@ -94,12 +94,44 @@ func c01IsTrunc(s c01Stmt) bool {
 // per key value, which one is not fixed).
 func c01IsSel(s c01Stmt) bool { return c01IsTrunc(s) || c01Kind(s) == "distinct" }
 
+// c01DetDistinct: a distinct whose key contains the element id keeps exactly one row per element.
+// Rows of one element carry the same current element, so when nothing in the program can tell them
+// apart (no marks, paths or unwound copies) the result MULTISET is determined whichever row is
+// kept, and the step is compared like a filter (rows), not like a selection (sub-multiset).  This
+// is what makes "each distinct de-duplicates its own input only" observable for programs with
+// several distinct steps.
+func c01DetDistinct(q []c01Stmt) func(c01Stmt) bool {
+	for _, s := range q {
+		switch c01Kind(s) {
+		case "as", "select", "path", "unwind":
+			return func(c01Stmt) bool { return false }
+		}
+	}
+	return func(s c01Stmt) bool {
+		if c01Kind(s) != "distinct" {
+			return false
+		}
+		fs, _ := s["distinct"].([]interface{})
+		if len(fs) == 0 {
+			return true // the compiler's default key is _gid
+		}
+		for _, f := range fs {
+			if f == "_gid" {
+				return true
+			}
+		}
+		return false
+	}
+}
+
 // c01Classify decides what can be compared for a program (see file comment) and returns the
 // program without its selection steps (from the first one on) for the sub-multiset test.
 func c01Classify(q []c01Stmt) (cmp string, untr []c01Stmt) {
+	det := c01DetDistinct(q)
+	isSel := func(s c01Stmt) bool { return c01IsSel(s) && !det(s) }
 	first := -1
 	for i, s := range q {
-		if c01IsSel(s) {
+		if isSel(s) {
 			first = i
 			break
 		}
@@ -114,7 +146,7 @@ func c01Classify(q []c01Stmt) (cmp string, untr []c01Stmt) {
 	distinctAfterTrunc := false
 	lastCount, lastSel := -1, -1
 	for i, s := range q[first:] {
-		if c01IsSel(s) {
+		if isSel(s) {
 			lastSel = i
 			if c01IsTrunc(s) {
 				seenTrunc = true
@@ -228,7 +260,9 @@ func toIfaces(q []c01Stmt) []interface{} {
 	return out
 }
 
-func (c *c01Engine) run(q []c01Stmt) c01Result {
+func (c *c01Engine) run(q []c01Stmt) c01Result { return c.runWithin(q, 20*time.Second) }
+
+func (c *c01Engine) runWithin(q []c01Stmt, deadline time.Duration) c01Result {
 	g, err := c.iface()
 	if err != nil {
 		return c01Result{bad: err.Error()}
@@ -241,7 +275,7 @@ func (c *c01Engine) run(q []c01Stmt) c01Result {
 	if err != nil {
 		return c01Result{compileErr: true}
 	}
-	out := RunOn(g, stmts, c.eng.Work, 20*time.Second)
+	out := RunOn(g, stmts, c.eng.Work, deadline)
 	if out.Err != nil {
 		return c01Result{compileErr: true}
 	}
@@ -311,12 +345,18 @@ func (c *c01Engine) exec(op map[string]interface{}) map[string]interface{} {
 				hasDistinct = true
 			}
 		}
-		if hasDistinct && c.distinctSlow {
+		must, _ := op["must"].(bool) // the fixed distinct programs: never rationed, generous deadline
+		if hasDistinct && c.distinctSlow && !must {
 			return map[string]interface{}{"skip": true, "why": "distinct: temporary store too slow on this machine"}
 		}
 		t0 := time.Now()
-		res := c.run(q)
-		if hasDistinct && (res.slow || time.Since(t0) > 4*time.Second) {
+		var res c01Result
+		if must {
+			res = c.runWithin(q, 120*time.Second)
+		} else {
+			res = c.run(q)
+		}
+		if hasDistinct && !must && (res.slow || time.Since(t0) > 4*time.Second) {
 			c.distinctSlow = true
 		}
 		if res.slow {
@@ -724,9 +764,13 @@ func c01Gen(r *Run) {
 		r.Emit(op, obs)
 		return obs
 	}
+	must := false
 	query := func(q []c01Stmt) map[string]interface{} {
 		cmp, _ := c01Classify(q)
 		op := map[string]interface{}{"op": "query", "q": toIfaces(q), "cmp": cmp}
+		if must {
+			op["must"] = true
+		}
 		if prod {
 			op["mode"] = "prod"
 		}
@@ -881,8 +925,17 @@ func c01Gen(r *Run) {
 			{{"v": sl()}, {"as": "a"}, {"out": sl()}, {"distinct": sl("$a._gid")}},
 			{{"v": sl()}, {"bothE": sl()}, {"distinct": sl("_label")}, {"limit": 1}},
 			{{"v": sl()}, {"distinct": sl("name")}, {"count": ""}},
+			// several distinct steps in one traversal: each de-duplicates its own input only
+			{{"v": sl()}, {"distinct": sl("_gid")}, {"out": sl()}, {"distinct": sl("_gid")}},
+			{{"v": sl()}, {"distinct": sl()}, {"both": sl()}, {"distinct": sl()}, {"count": ""}},
+			{{"v": sl()}, {"out": sl()}, {"distinct": sl("_gid", "_label")}, {"in": sl()}, {"distinct": sl("_label", "_gid")}},
+			{{"e": sl()}, {"distinct": sl()}, {"out": sl()}, {"distinct": sl()}, {"outE": sl()}, {"distinct": sl()}},
+			{{"v": sl()}, {"distinct": sl("_label")}, {"count": ""}},
+			{{"v": sl()}, {"distinct": sl("_label")}, {"out": sl()}, {"distinct": sl("_label")}},
 		} {
+			must = true
 			query(q)
+			must = false
 		}
 	}
 	for i := 0; i < nrand; i++ {
